@@ -7,7 +7,7 @@ EXTENDS Integers, Sequences, SequencesExt, FiniteSets, TLC, Json
 
 CONSTANTS Mode        \* "single": one port entry x all service lists (exhaustive)
                       \* "multi" : up to 3 entries, lists sampled by -simulate
-VARIABLES conn, phase, idx, cands, peeked, wrapped, chosen, gotFrom, gotTo,
+VARIABLES conn, phase, idx, cands, peeked, wrapped, chosen, gotFrom, gotTo, missing,
           cfg, k, hist, done
 
 D == INSTANCE Dispatch WITH Deviations <- {}
@@ -29,17 +29,19 @@ Entry(a, l) == [proto |-> a.proto, ip |-> a.ip, port |-> a.port, svcs |-> l]
 
 Heads == { <<"A", "x">>, <<"A", "B", "x">>, <<"B", "x">>, <<"C", "x">>, <<"A">> }
 \* (head, pad, r): short payloads with first segments of 1, 2 and everything; the 1 KiB boundary
-Shapes == { [head |-> h, pad |-> 0, r |-> r] : h \in Heads, r \in {1, 2, 9999} }
-          \cup { [head |-> <<"A", "B", "x">>, pad |-> p, r |-> 9999] : p \in {1020, 1021, 1022, 2000} }
-ConnsTo(a) == { [proto |-> a.proto, ip |-> a.ip, port |-> a.port, head |-> s.head, pad |-> s.pad, r |-> s.r] : s \in Shapes }
+\* rs: buffer size of the chosen service's first Read (smaller than, equal to, larger than what was peeked)
+Shapes == { [head |-> h, pad |-> 0, r |-> r, rs |-> 4096] : h \in Heads, r \in {1, 2, 9999} }
+          \cup { [head |-> <<"A", "B", "x">>, pad |-> p, r |-> 9999, rs |-> 4096] : p \in {1020, 1021, 1022, 2000} }
+          \cup { [head |-> h, pad |-> p, r |-> 9999, rs |-> z] : h \in { <<"A", "B", "x">>, <<"B", "x">> }, p \in {0, 700, 2000}, z \in {1, 3, 700} }
+ConnsTo(a) == { [proto |-> a.proto, ip |-> a.ip, port |-> a.port, head |-> s.head, pad |-> s.pad, r |-> s.r, rs |-> s.rs] : s \in Shapes }
 Targets == { [proto |-> p, ip |-> i, port |-> q] : p \in {"tcp", "udp"}, i \in {"10.0.0.1", "10.0.0.2"}, q \in {80, 81} }
 
 \* single mode: every shape against the one configured port (tcp, and udp where a datagram is its own segment)
 ConnSeqSingle == SetToSeq(ConnsTo([proto |-> "tcp", ip |-> "10.0.0.1", port |-> 80])
                           \cup { c \in ConnsTo([proto |-> "udp", ip |-> "10.0.0.1", port |-> 80]) : c.r = 9999 }
-                          \cup { [proto |-> "tcp", ip |-> "10.0.0.1", port |-> 81, head |-> <<"A", "x">>, pad |-> 0, r |-> 9999] })
+                          \cup { [proto |-> "tcp", ip |-> "10.0.0.1", port |-> 81, head |-> <<"A", "x">>, pad |-> 0, r |-> 9999, rs |-> 4096] })
 \* multi mode: one short shape to every target address
-ConnSeqMulti == SetToSeq({ [proto |-> t.proto, ip |-> t.ip, port |-> t.port, head |-> h, pad |-> 0, r |-> 9999] :
+ConnSeqMulti == SetToSeq({ [proto |-> t.proto, ip |-> t.ip, port |-> t.port, head |-> h, pad |-> 0, r |-> 9999, rs |-> 4096] :
                            t \in Targets, h \in { <<"A", "B", "x">>, <<"C", "x">> } })
 ConnSeq == IF Mode = "single" THEN ConnSeqSingle ELSE ConnSeqMulti
 
@@ -48,13 +50,13 @@ Init ==
                THEN { << Entry([proto |-> p, ip |-> "", port |-> 80], l) >> : l \in AllLists, p \in {"tcp", "udp"} }
                ELSE { <<>> }      \* built entry by entry (AddEntry), so that -simulate can sample it
   /\ k = 1 /\ hist = <<>> /\ done = FALSE
-  /\ phase = "idle" /\ conn = [proto |-> "", ip |-> "", port |-> 0, head |-> <<>>, pad |-> 0, r |-> 0]
-  /\ idx = 0 /\ cands = <<>> /\ peeked = -1 /\ wrapped = FALSE /\ chosen = "none" /\ gotFrom = 0 /\ gotTo = 0
+  /\ phase = "idle" /\ conn = [proto |-> "", ip |-> "", port |-> 0, head |-> <<>>, pad |-> 0, r |-> 0, rs |-> 0]
+  /\ idx = 0 /\ cands = <<>> /\ peeked = -1 /\ wrapped = FALSE /\ chosen = "none" /\ gotFrom = 0 /\ gotTo = 0 /\ missing = 0
 
 NEntries == IF Mode = "single" THEN 1 ELSE 3
 AddEntry == /\ ~done /\ phase = "idle" /\ k = 1 /\ Len(cfg) < NEntries
             /\ \E a \in Addrs, l \in AllLists : cfg' = Append(cfg, Entry(a, l))
-            /\ UNCHANGED <<conn, phase, idx, cands, peeked, wrapped, chosen, gotFrom, gotTo, k, hist, done>>
+            /\ UNCHANGED <<conn, phase, idx, cands, peeked, wrapped, chosen, gotFrom, gotTo, missing, k, hist, done>>
 
 Start == /\ ~done /\ phase = "idle" /\ k <= Len(ConnSeq) /\ Len(cfg) = NEntries
          /\ D!Accept(D!Table(cfg), ConnSeq[k])
@@ -67,15 +69,15 @@ Step == /\ phase \in {"scanning", "handling"} /\ ~D!Done
 Finish == /\ phase \in {"closed", "handling"} /\ D!Done
           /\ hist' = Append(hist, [conn |-> conn, chosen |-> chosen, from |-> gotFrom, to |-> gotTo])
           /\ k' = k + 1 /\ phase' = "idle"
-          /\ UNCHANGED <<conn, idx, cands, peeked, wrapped, chosen, gotFrom, gotTo, cfg, done>>
+          /\ UNCHANGED <<conn, idx, cands, peeked, wrapped, chosen, gotFrom, gotTo, missing, cfg, done>>
 
 Emit == /\ ~done /\ phase = "idle" /\ k > Len(ConnSeq)
         /\ PrintT(<<"SCN", ToJson([cfg |-> cfg, table |-> D!Table(cfg), conns |-> hist])>>)
         /\ done' = TRUE
-        /\ UNCHANGED <<conn, phase, idx, cands, peeked, wrapped, chosen, gotFrom, gotTo, cfg, k, hist>>
+        /\ UNCHANGED <<conn, phase, idx, cands, peeked, wrapped, chosen, gotFrom, gotTo, missing, cfg, k, hist>>
 
 Next == AddEntry \/ Start \/ Step \/ Finish \/ Emit
-vars == <<conn, phase, idx, cands, peeked, wrapped, chosen, gotFrom, gotTo, cfg, k, hist, done>>
+vars == <<conn, phase, idx, cands, peeked, wrapped, chosen, gotFrom, gotTo, missing, cfg, k, hist, done>>
 Spec == Init /\ [][Next]_vars
 
 Inv == (phase # "idle") => (D!FirstInOrder /\ D!StreamIntact /\ D!NobodyIfNone)
